@@ -399,3 +399,7 @@ mod tests {
         checksum: 0xd547_u16
     }
 }
+
+#[cfg(kani)]
+#[path = "/verif/kani/sciparse/c03_checksum.rs"]
+mod verif_c03_checksum;
